@@ -573,6 +573,16 @@ func (e *Engine) runPath(hr *HarnessRun, sol *Solver, it workItem, concrete map[
 	}
 	sol.Reset()
 	sol.context = func() string { return fmt.Sprint(p.choices) + p.where() }
+	sol.modelTerms = func() []*Term { // what a model of this path is read for (solver_oneshot.go)
+		var ts []*Term
+		for _, in := range p.inputs {
+			ts = append(ts, in.T)
+		}
+		for _, o := range p.obs {
+			ts = append(ts, o.terms...)
+		}
+		return ts
+	}
 	defer func() {
 		atomic.AddInt64(&hr.steps, p.steps)
 		hr.mu.Lock()
